@@ -61,11 +61,11 @@ def load_mir(fs='default'):
 
 class Native:
     """the replay binary built against /repo's working tree; JSON line protocol"""
-    def __init__(self):
+    def __init__(self, features=None):
         t0 = time.time()
-        tdir = os.path.join(BUILD, 'replay-target')
+        tdir = os.path.join(BUILD, 'replay-target' + ('-' + features.replace(',', '_') if features else ''))
         shutil.copyfile(os.path.join(REPO, 'Cargo.lock'), os.path.join(VERIF, 'replay', 'Cargo.lock'))
-        r = subprocess.run(['cargo', 'build', '--offline'], cwd=os.path.join(VERIF, 'replay'), env=dict(ENV, CARGO_TARGET_DIR=tdir),
+        r = subprocess.run(['cargo', 'build', '--offline'] + (['--features', features] if features else []), cwd=os.path.join(VERIF, 'replay'), env=dict(ENV, CARGO_TARGET_DIR=tdir),
                            stdout=subprocess.PIPE, stderr=subprocess.STDOUT, text=True)
         if r.returncode != 0:
             raise CheckInconclusive('replay binary does not build against the working tree:\n' + r.stdout[-1500:])
@@ -143,6 +143,7 @@ class Ctx:
         self.harnesses = []
         self.t0 = time.time()
         self.native = None
+        self.natives = {}
         self.violations = []          # (case dict, replay path)
         self.known = []
         self.validated = 0            # translator-validation vectors compared with the native build
@@ -153,7 +154,10 @@ class Ctx:
         self.bounds = {}
         self.outside = []
 
-    def get_native(self):
+    def get_native(self, features=None):
+        if features:
+            if features not in self.natives: self.natives[features] = Native(features)
+            return self.natives[features]
         if self.native is None: self.native = Native()
         return self.native
 
